@@ -97,3 +97,13 @@ package signappx
 //@   ensures @exactly_one_result_is_sent_on_every_path sent == 1
 //@   ensures @the_pipe_reader_is_closed_on_every_path_so_the_producer_never_blocks closed
 //@   ensures @a_failed_digest_closes_the_pipe_with_an_error digErr != nil ==> closedWith != nil
+//@
+//@ func verifyCatalog
+//@   property C02
+//@   requires sig != nil
+//@   ghost cmsOK bool = false
+//@   ghost same bool = false
+//@   before call (*pkcs7.SignedData).Verify(_, ext, skip): assert @security_catalog_signature_verified_with_its_content_digest !skip && len(ext) == 0
+//@   on call (*pkcs7.SignedData).Verify(_, _, skip) ret (s, e): cmsOK = (e == nil && !skip)
+//@   on call bytes.Equal(a, b) ret (r): same = r && sameslice(b, sig.Signature.Certificate.Raw)
+//@   ensures @a_present_catalog_is_cms_verified_and_signed_by_the_package_certificate ret0 == nil && zf != nil ==> cmsOK && same
